@@ -69,6 +69,7 @@ type VC struct {
 	counters map[string]int
 	heapSort map[string]string // heap name -> sort
 	wrapping bool
+	next0    string // allocation counter at entry
 	prune    bool
 	nPruned  int
 	inputs   []InputSym
@@ -140,6 +141,7 @@ func (vc *VC) small(prefix, sort, term string) string {
 func (vc *VC) newState() *State {
 	s := &State{vc: vc, g: "true", vars: map[types.Object]*Val{}, boxed: map[types.Object]string{}, heaps: map[string]string{}}
 	s.next = vc.declare("next0", "Int")
+	vc.next0 = s.next
 	vc.facts = append(vc.facts, "(> "+s.next+" 0)")
 	return s
 }
@@ -197,7 +199,11 @@ func (s *State) heap(name, sort string) string {
 func (vc *VC) initHeap(name, sort string, epoch int) string {
 	n := fmt.Sprintf("%s!h%d_%d", sanitizeSym(name), vc.id, epoch)
 	if _, ok := vc.eng.syms.syms[n]; !ok {
-		vc.eng.syms.add(n, fmt.Sprintf("(declare-fun %s () %s)", n, sort)+nilMapAxiom(name, n, sort)+vc.eng.heapWellTyped(name, n))
+		bound := ""
+		if epoch == 0 {
+			bound = vc.next0
+		}
+		vc.eng.syms.add(n, fmt.Sprintf("(declare-fun %s () %s)", n, sort)+nilMapAxiom(name, n, sort)+vc.eng.heapWellTypedBound(name, n, bound))
 	}
 	return n
 }
